@@ -2,7 +2,7 @@
 from .. import bb, chain as K, gen_chain as GC
 
 NAMESPACE = "Rbp.Props.C02"
-REQUIRED = ["delivered_eq_range", "upper_end", "trimmed_keeps_range", "delivered_eq", "file_names", "range_run_is_slice", "range_run_is_slice_opreturn"]
+REQUIRED = ["delivered_eq_range", "upper_end", "trimmed_keeps_range", "delivered_eq", "file_names", "range_run_is_slice", "range_run_is_slice_opreturn", "every_run_delivers_an_initial_segment", "empty_range_run"]
 LEAN_FILES = ["Rbp/Model/Driver.lean", "Rbp/Model/Run.lean", "Rbp/Proofs/Driver.lean"]
 RULE = ("black-box runs of the real binary vs the whole-program Lean model: bounded-exhaustive tip heights T=0..6 (quick; 0..9 thorough) x every accepted (--start,--end) incl. absent options, "
         "e below/at/above T, s=0, s=T, s>T x all five callbacks; plus sampled sparse high heights. Observables: height column of blocks-*.csv, names of the produced files, "
